@@ -179,14 +179,25 @@ fn run_built(b: &Built, ks_explicit: Option<&[u64]>, delays: Option<&[u64]>, mut
             }
         }
     };
-    for k in ks {
+    // under a fixed move time or a clock, the search can also end because its limit has expired: every
+    // other index of such a case is run that way (hook H4), the others with the stop flag
+    let can_expire = !matches!(b.main.limit, Limit::Depth(_));
+    let ks: Vec<u64> = match ks_explicit {
+        Some(_) => ks,
+        None => ks.into_iter().enumerate().map(|(i, k)| if can_expire && i % 2 == 1 { k + EXPIRY } else { k }).collect(),
+    };
+    for k_coded in ks {
+        let (k, expiry) = if k_coded >= EXPIRY { (k_coded - EXPIRY, true) } else { (k_coded, false) };
         if k == 0 || k > n {
             continue;
         }
         st.eval();
-        let exk = || ex(vec![k], vec![]);
+        if expiry {
+            st.class("ended_by_an_expired_limit_at_poll_k(hook)");
+        }
+        let exk = || ex(vec![k_coded], vec![]);
         let Some(mut state) = prepare(b) else { return Ok(()) };
-        let out = run_search(&game, &mut state, &b.main.limit, k)
+        let out = run_search(&game, &mut state, &b.main.limit, k_coded)
             .map_err(|pm| Fail::new(&format!("stopped_search_panic:{}", panic_signature(&pm)), format!("search at {} depth {depth} stopped at poll {k}/{n} panicked: {pm}", pos.to_fen())).explicit(exk()))?;
         let inside = !between.contains(&k);
         if inside {
